@@ -232,9 +232,7 @@ type lexFolder struct {
 
 func (c *Ctx) newLexFolder() *lexFolder {
 	lf := &lexFolder{c: c, tables: map[*ssa.Global]fval{}}
-	lf.next = c.lexerNext()
-	lf.back = c.methodOpt("Lexer", "back")
-	lf.peek = c.methodOpt("Lexer", "peek")
+	lf.next, lf.back, lf.peek = c.lexerPrims()
 	return lf
 }
 
